@@ -333,7 +333,9 @@ func c04inputs(e c04entry, thorough bool, each func(in c04input) bool) {
 			words := [][]byte{{0, 0, 0, 0}, {0xff, 0xff, 0xff, 0xff}, {0xff, 0xff, 0xff, 0xfc}, {0xff, 0xff, 0xff, 0xf8}, {0x80, 0, 0, 0}, {0x7f, 0xff, 0xff, 0xff},
 				{0xfc, 0xff, 0xff, 0xff}, {0xf8, 0xff, 0xff, 0xff}, {0, 0, 0, 0x80}, {0xff, 0xff, 0xff, 0x7f},
 				{0xff, 0xff}, {0x80, 0x00}, {0x00, 0x80}, {0x7f, 0xff}, {0xff, 0x7f}, {0xff, 0xfe}, {0xfe, 0xff},
-				{0xff, 0xff, 0xff, 0xff, 0xff, 0xff, 0xff, 0xff}, {0, 0, 0, 0, 0, 0, 0, 0x80}, {0xff, 0xff, 0xff, 0xff, 0xff, 0xff, 0xff, 0x7f}}
+				{0xff, 0xff, 0xff, 0xff, 0xff, 0xff, 0xff, 0xff}, {0, 0, 0, 0, 0, 0, 0, 0x80}, {0xff, 0xff, 0xff, 0xff, 0xff, 0xff, 0xff, 0x7f},
+				// a length that is too small for what it announces: 1, 2, 3, 6
+				{0, 0, 0, 1}, {0, 0, 0, 2}, {0, 0, 0, 3}, {0, 0, 0, 6}, {1, 0, 0, 0}, {2, 0, 0, 0}, {3, 0, 0, 0}, {6, 0, 0, 0}, {0, 1}, {0, 2}, {1, 0}, {2, 0}}
 			for pos := 0; pos < len(item); pos++ {
 				for wi, w := range words {
 					if pos+len(w) > len(item) || bytes.Equal(item[pos:pos+len(w)], w) {
@@ -341,7 +343,7 @@ func c04inputs(e c04entry, thorough bool, each func(in c04input) bool) {
 					}
 					m := append([]byte{}, item...)
 					copy(m[pos:], w)
-					if !each(c04input{"setword", ci, pos*32 + wi, m}) {
+					if !each(c04input{"setword", ci, pos*64 + wi, m}) {
 						return
 					}
 				}
